@@ -120,6 +120,8 @@ type c43Conn struct {
 type c43Step struct {
 	frames chan c43Frame
 	idle   chan struct{}
+	dead   chan struct{} // closed when the read loop goroutine ended (normally or by panic)
+	panicv any
 }
 
 func (c *c43Conn) RemoteAddr() net.Addr                     { return nil }
@@ -919,13 +921,19 @@ func c43BuildB4(as []protocol.Tag, cache map[string][]byte) []*c43Case {
 	return cases
 }
 
-func c43PartB(r *ve.Run) {
+func c43PartB(r *ve.Run, only string) {
 	total := 0
 	run := func(cases []*c43Case) {
 		base := total
 		total += len(cases)
+		if r.Violations() > 0 {
+			return // a violation was reported: the remaining groups add nothing
+		}
 		r.ParallelFor(len(cases), func(i int) {
 			c := cases[i]
+			if only != "" && c.Name != only {
+				return
+			}
 			res := c43RunCase(c)
 			r.Eval()
 			if res.bad != "" {
